@@ -449,6 +449,8 @@ class CallMixin:
             return Z(T("dyn"), smt.dyn_ctor("DNone"))
         if name == "to_dyn":
             return Z(T("dyn"), self.to_dyn(st, self.ev_spec(st, A[0])))
+        if name == "py_str":
+            return zstr(self.to_str_term(st, self.ev_spec(st, A[0])))
         if name == "dyn_get":
             d = self.to_z(st, self.ev_spec(st, A[0]), T("dyn"))
             k = self.to_z(st, self.ev_spec(st, A[1]), T("str"))
